@@ -393,3 +393,34 @@ def run_ddp_resume_task(task):
     except Exception:
         import traceback
         return {"crash": traceback.format_exc()}
+
+
+def fsdp_metadata_task(task):
+    """Real torch FSDP (use_orig_params=True) on simulated ranks: compile_fsdp_parameter_metadata must give the shard boundaries of the
+    spec's flat-parameter model (FlatShardsA with 16-byte alignment)."""
+    import logging
+    logging.disable(logging.WARNING)
+    torch.set_num_threads(1)
+    try:
+        import torch.nn as nn
+        from torch.distributed.fsdp import FullyShardedDataParallel as FSDP
+        from distributed_shampoo.utils.shampoo_fsdp_utils import compile_fsdp_parameter_metadata, parse_fsdp_params
+        shapes = task["shapes"]
+
+        class M(nn.Module):
+            def __init__(self):
+                super().__init__()
+                self.ps = nn.ParameterList([nn.Parameter(torch.zeros(*s)) for s in shapes])
+
+        def fn(rank, world):
+            m = FSDP(M(), use_orig_params=True, device_id=torch.device("cpu"))
+            md = compile_fsdp_parameter_metadata(m)
+            named = dict(m.named_parameters())
+            f, h, o = parse_fsdp_params(named, md)
+            by_fqn = {v.fqn: (int(v.start_idx), int(v.end_idx), [int(x) for x in v.shape], int(v.numel), int(p.numel())) for p, v in md.items()}
+            return {"meta": [by_fqn.get(f"ps.{i}") for i in range(len(shapes))], "parts": [len(f), len(h), len(o)], "named": len(named)}
+        world = simdist.run_world(task["S"], fn, seed=0, timeout=40)
+        return {"errors": {str(k): v[:300] for k, v in world.errors.items()}, "ranks": {str(r): world.results.get(r) for r in range(task["S"])}}
+    except Exception:
+        import traceback
+        return {"crash": traceback.format_exc()}
